@@ -140,7 +140,9 @@ CHECKS['C12'] = dict(
          'never repeats), C12_numbers (number startNumber+k delivers source segment m0+k, m0 = nearest-start segment of the Period\'s '
          'source offset; beyond the source: refused), C12_decode_times (zero at the Period start, gapless); C12_refuted_wrap is a '
          'recorded finding. Tied to /repo over HTTP: real /mps manifests and segments of generated multi-period definitions '
-         'against the models, payloads compared with the stored segments by an independent box walker.',
+         'against the models, payloads compared with the stored segments by an independent box walker; every $Time$ URL of the '
+         'static timeline=1 manifest is compared with the number route the model decides (two more recorded findings: the '
+         'timeline is that of the whole source, not of the Period).',
     note=TB + 'multi-period definitions are inserted through the SQLAlchemy models; Jinja rendering of Period elements and Flask routing '
          'are exercised, not modelled; float total_seconds() modelled as exact rationals.',
     technique='Coq proof (induction over the period loop with a contiguity/ordering invariant; segment-walk lemmas of C02) + HTTP '
